@@ -262,6 +262,13 @@ def Policy.ofConfigs (cc sc : Config) (serverNameGiven : Bool) (serverCert : Pee
     verifyClient := clientVerifyOf sc.verifyClient, serverVerifyTime := sc.verifyTime != 0,
     clientCert }
 
+/-- a certificate is within its validity period at `now` (all three in seconds since the epoch, any sign) -/
+def validAt (now notBefore notAfter : Int) : Bool := decide (notBefore ≤ now) && decide (now ≤ notAfter)
+
+/-- the facts about a certificate with the given validity window, looked at at time `now` -/
+def PeerCert.ofWindow (trusted : Bool) (now notBefore notAfter : Int) : PeerCert :=
+  ⟨trusted, validAt now notBefore notAfter⟩
+
 /-- X509 chain verification with `X509_V_FLAG_NO_CHECK_TIME` set iff `verify_time == 0` -/
 def chainOk (verifyTime : Bool) (c : PeerCert) : Bool := c.trusted && (c.timeValid || !verifyTime)
 
